@@ -208,6 +208,12 @@ def run(ctx):
         if f is None:
             chk.unrecognised("C08.b", f"<anchor> {fn_name}", "missing")
             continue
+        # every character of the input is mapped: the characters iterated are those of the parameter itself, not of a
+        # trimmed / filtered / truncated copy (a name made of whitespace only would come out empty)
+        its_ = [c for g_ in f.region() for c in g_.body.calls() if callee_method_name(c) in ("chars", "char_indices") and "str" in (c.resolved or "")]
+        cut_ = [sym_str(arg_syms(c)[0])[:60] for c in its_ if sym_arg(sym_through(arg_syms(c)[0], "Deref::deref", "String::as_str", "AsRef::as_ref", "Borrow::borrow")) is None]
+        if its_:
+            chk.ob("C08.b", f"{f.path} [every input character]", not cut_, "the characters mapped are those of the parameter" if not cut_ else f"the sanitiser iterates {cut_[0]} instead of its whole input: characters are dropped before the mapping (an all-whitespace name becomes the empty string)", f.loc(), nontrivial=False)
         clos = [c for c in f.region() if c is not f]
         ok = len(clos) == 1
         why = "expected one per-character closure"
@@ -390,6 +396,13 @@ def run(ctx):
                 hn = _alts(arg_syms(c)[1])
                 ok = ok and bool(after) and all(set(_alts(arg_syms(c2)[1])) == set(hn) for c2 in after)
                 ok = ok and not any(c.bb in b.reachable_after(c2.bb) for c2 in t)
+        if ok:
+            # ... and nothing else: the header consists of these lines only (an added `# UNIT` / `# EOF` / comment line is
+            # none of HELP, TYPE, sample or blank)
+            bp = sym_arg(arg_syms(t[0])[0])
+            if bp is not None:
+                extra = [c for c in nonforeign_calls(wfh) if c.args and not c.is_("formatting::write_type_line", "formatting::write_help_line") and callee_method_name(c) in ("push_str", "push", "write_fmt", "write_str", "extend", "insert_str", "insert", "extend_from_slice", "write_char") and (sym_arg(arg_syms(c)[0]) or (None,))[0] == bp[0]]
+                ok = not extra
         chk.ob("C08.d", wfh.path, ok, "HELP (if described) then exactly one TYPE line, both with the returned family name" if ok else "the family header does not write HELP-then-TYPE with the name it returns on every path", wfh.loc())
     if wml:
         b = wml.body
